@@ -721,7 +721,9 @@ def _case(entry, space, rng, **kw):
         "space": space,
         "logstd": float([-2.0, 0.0, 1.0][int(rng.integers(3))]),
         "jitter": bool(rng.random() < 0.4),
-        "squash": bool(space["kind"] == "box" and rng.random() < 0.45),
+        # the squash_output option is also written into configurations of policies over non-Box spaces, where it has nothing to
+        # squash: distribution, log-probability and (analytical) entropy stay those of the categorical / Bernoulli policy
+        "squash": bool(rng.random() < (0.45 if space["kind"] == "box" else 0.2)) if entry != "ippo" else False,
         "mask": ["none", "random", "all_but_one"][int(rng.integers(3))] if space["kind"] != "box" else "none",
         "mask_type": ["numpy", "tensor", "object"][int(rng.integers(3))],
         "wscale": float([0.3, 1.0, 3.0][int(rng.integers(3))]),
@@ -912,7 +914,7 @@ def _actor_battery(actor, case, space, gen, rng, forwards=3):
         # later: parameters moved on, another (unrelated) sample is drawn, then the stored action is re-evaluated
         _perturb(actor, gen)
         actor(obs, _mask_as(case, mask))
-        if case["squash"]:
+        if case["squash"] and getattr(actor, "action_low", None) is not None and case["space"]["kind"] == "box":
             lo, hi = actor.action_low, actor.action_high
             stored = 2.0 * (stored - lo) / (hi - lo) - 1.0
         actor.action_log_prob(stored)
